@@ -8,18 +8,6 @@ From OFGA Require Import Base.Bytes Store.ReadSpec Store.MemoryRead Store.SqlRea
 Definition flag_read_all_ignores_conditions (s : store) (f : read_filter) : bool :=
   m_filter_is_empty f && negb (forallb (conds_ok (rf_conds f)) s).
 
-(* a stored userset of the object (type,id) named by a relation-less user *)
-Definition has_userset_of (s : store) (x : user) : bool :=
-  existsb (fun t => beqb (u_type (t_user t)) (u_type x) && beqb (u_id (t_user t)) (u_id x) &&
-                    negb (beqb (u_rel (t_user t)) [])) s.
-
-(* sqlite Read / ReadPage: user filter "type:id" puts no predicate on user_relation *)
-Definition flag_read_relationless_user (s : store) (f : read_filter) : bool :=
-  match rf_usr f with
-  | UExact x => beqb (u_rel x) [] && has_userset_of s x
-  | _ => false
-  end.
-
 (* memory ReadUsersetTuples: the Conditions test is dead code *)
 Definition flag_usersets_conditions_ignored (s : store) (f : usersets_filter) : bool :=
   negb (forallb (conds_ok (uf_conds f)) s).
@@ -37,10 +25,6 @@ Fixpoint nodup_users (us : list user) : bool :=
   | u :: us' => negb (existsb (user_eqb u) us') && nodup_users us'
   end.
 Definition flag_rswu_duplicate_user_filter (f : rswu_filter) : bool := negb (nodup_users (sf_users f)).
-
-(* sqlite ReadStartingWithUser: user filter without relation puts no predicate on user_relation *)
-Definition flag_rswu_relationless_user (s : store) (f : rswu_filter) : bool :=
-  existsb (fun u => beqb (u_rel u) [] && has_userset_of s u) (sf_users f).
 
 (* sqlite ReadStartingWithUser: a present but empty ObjectIDs set is treated as absent *)
 Definition flag_rswu_empty_object_ids (f : rswu_filter) : bool :=
